@@ -1,0 +1,24 @@
+//go:build verif
+
+package fakenet
+
+import "net"
+
+// VerifYield, when set, is called at named points of connFeeder.do and
+// connFeeder.run (build tag verif only). feeder identifies the connFeeder (see
+// VerifFeeders), b is the buffer of the call in flight (nil where there is none).
+// It must be set before any connection is created and not changed afterwards.
+var VerifYield func(feeder any, point string, b []byte)
+
+func verifYield(f *connFeeder, point string, b []byte) {
+	if h := VerifYield; h != nil {
+		h(f, point, b)
+	}
+}
+
+// VerifFeeders returns the values passed as feeder to VerifYield for the read
+// side and the write side of a connection made by NewConn.
+func VerifFeeders(c net.Conn) (reader, writer any) {
+	fc := c.(*fakeConn)
+	return fc.reader, fc.writer
+}
